@@ -94,11 +94,15 @@ class SimRandom(object):
 
 
 class NPProxy(object):
-    def __init__(self, random):
+    """`np` as seen by persim.gromov_hausdorff: everything from the module's current `np` (which may already be
+    the poisoned-empty view of sim/simempty.py) except `random`."""
+
+    def __init__(self, random, base=None):
         object.__setattr__(self, "random", random)
+        object.__setattr__(self, "_base", base if base is not None else _np)
 
     def __getattr__(self, name):
-        return getattr(_np, name)
+        return getattr(object.__getattribute__(self, "_base"), name)
 
 
 class rng_scope(object):
@@ -112,7 +116,7 @@ class rng_scope(object):
         import persim  # noqa: F401
         self.mod = sys.modules["persim.gromov_hausdorff"]
         self.prev = self.mod.np
-        self.mod.np = NPProxy(self.sr)
+        self.mod.np = NPProxy(self.sr, base=self.prev)
         return self.sr
 
     def __exit__(self, *a):
